@@ -17,11 +17,16 @@ def to_gallina(case, obs):
         return None
     if "driver_exception" in obs:
         return "Case [] [] [mk_obs OInt [] [] [] [] fresh_rst]"     # forces a mismatch
+    if any(r["kind"] == "import" for r in case["runs"]):
+        # a recording written through the cassette API, without the recorder's (clock) metadata: the two clock values are
+        # outside the model, so such a history is implementation-side only (direct predicate)
+        return None
     return rd.g_case(case, obs)
 
 
 def explain(case, obs):
-    return "explain_case (%s)" % to_gallina(case, obs)
+    t = to_gallina(case, obs)
+    return "0%nat" if t is None else "explain_case (%s)" % t
 
 
 def features(case):
@@ -29,13 +34,21 @@ def features(case):
     if case.get("unshare"):
         fs.add("values-passed-as-copies")
     for r in case["runs"]:
-        if r["kind"] == "record":
+        if r["kind"] == "import":
+            fs.add("run:import:" + r.get("meta", "none"))
+        elif r["kind"] == "record":
             fs.add("run:record")
             fs |= rd.features_of_code(r["op"]["body"])
             if not r["enabled"]:
                 fs.add("recording-disabled")
-            if r["prm"]["skipped"]:
+            if r["prm"] is None:
+                fs.add("class-without-registered-parameters")
+            elif r["prm"]["skipped"]:
                 fs.add("class-skipped")
+            if r["op"].get("base"):
+                b = r["op"]["base"]
+                fs.add("derived-class:base-%s:%s" % ("with-parameters" if b.get("prm") else "plain",
+                                                     "inherited-operation" if b.get("inherits_op") else "own-operation"))
             if r.get("save_fails"):
                 fs.add("save-fails")
             fs.add("extractor:" + r["op"]["extractor"]["kind"])
@@ -57,6 +70,6 @@ def shrink_candidates(case):
     runs = case["runs"]
     if len(runs) > 1:
         for i in range(len(runs)):
-            if runs[i]["kind"] == "record" and any(r["kind"] == "play" for r in runs[i + 1:]):
-                continue
+            if runs[i]["kind"] in ("record", "import") and any(r["kind"] in ("play", "import") for r in runs[i + 1:]):
+                continue      # (later replays / imports refer to recordings by creation ordinal)
             yield dict(case, runs=runs[:i] + runs[i + 1:])
